@@ -58,30 +58,30 @@ theorem zerosL_getD (n i : ℕ) : (zerosL n).getD i 0 = 0 := by
   simp only [zerosL, List.getD_eq_getElem?_getD, List.getElem?_replicate]
   split_ifs <;> simp
 
-theorem getD_map_mul (xs : List ℝ) (c : ℝ) (i : ℕ) : (xs.map (fun v => c * v)).getD i 0 = c * xs.getD i 0 := by
+theorem ask_getD_map_mul (xs : List ℝ) (c : ℝ) (i : ℕ) : (xs.map (fun v => c * v)).getD i 0 = c * xs.getD i 0 := by
   by_cases h : i < xs.length
   · simp [List.getD_eq_getElem?_getD, h]
   · have h' : xs.length ≤ i := Nat.le_of_not_lt h
     simp [List.getD_eq_getElem?_getD, h']
 
-theorem roll_length (xs : List ℝ) (s : ℤ) : (roll xs s).length = xs.length := by
-  simp [roll, tab]
+theorem askRoll_length (xs : List ℝ) (s : ℤ) : (askRoll xs s).length = xs.length := by
+  simp [askRoll, tab]
 
-theorem roll_getD (xs : List ℝ) (s : ℤ) (i : ℕ) (h : i < xs.length) :
-    (roll xs s).getD i 0 = xs.getD ((((i : ℕ) : ℤ) - s) % ((xs.length : ℕ) : ℤ)).toNat 0 := by
-  unfold roll
+theorem askRoll_getD (xs : List ℝ) (s : ℤ) (i : ℕ) (h : i < xs.length) :
+    (askRoll xs s).getD i 0 = xs.getD ((((i : ℕ) : ℤ) - s) % ((xs.length : ℕ) : ℤ)).toNat 0 := by
+  unfold askRoll
   rw [tab_getD _ _ _ h]
 
-theorem roll_map_mul (xs : List ℝ) (c : ℝ) (s : ℤ) :
-    roll (xs.map (fun v => c * v)) s = (roll xs s).map (fun v => c * v) := by
-  unfold roll
+theorem askRoll_map_mul (xs : List ℝ) (c : ℝ) (s : ℤ) :
+    askRoll (xs.map (fun v => c * v)) s = (askRoll xs s).map (fun v => c * v) := by
+  unfold askRoll
   rw [List.length_map, tab_map]
   apply tab_congr
   intro i _
-  rw [getD_map_mul]
+  rw [ask_getD_map_mul]
 
-theorem roll_zeros (n : ℕ) (s : ℤ) : roll (zerosL n) s = zerosL n := by
-  unfold roll
+theorem askRoll_zeros (n : ℕ) (s : ℤ) : askRoll (zerosL n) s = zerosL n := by
+  unfold askRoll
   rw [zerosL_length, ← tab_zero]
   apply tab_congr
   intro i _
